@@ -314,6 +314,9 @@ func (t *Type) asID(seeNamed, escapeReserved bool) string {
 		return "unnamed"
 	}
 	if t.Chan {
+		if escapeReserved {
+			return "xchan"
+		}
 		return "chan"
 	}
 	return "unknown"
